@@ -11,7 +11,7 @@ Local Open Scope string_scope.
 Definition C13_conforms_full : Prop :=
   forall c rq fs, same_obs (run_ws c rq fs) (spec_ws c rq fs).
 
-(* proved under the two open finding classes as explicit boolean guards (g_all = g_shape && g_truthy);
+(* proved under the two open finding classes as explicit boolean guards (g_all = g_shape && g_nonnull);
    the guards g_stop (F26) and g_vars were deleted when /repo b1e7ba9 and d334181 landed *)
 Theorem C13_conforms_partial : forall c rq fs, g_all fs = true ->
   same_obs (run_ws c rq fs) (spec_ws c rq fs).
@@ -67,26 +67,26 @@ Theorem C13_one_subscribe : forall c rq f r m, is_ack f = true -> subscribe_msg 
 Proof. exact one_subscribe. Qed.
 Print Assumptions C13_one_subscribe.
 
-(* ---- the yielded list is the data of the next frames, in order: proved up to the falsy-data
-        class (F14), the only guard left ---- *)
+(* ---- the yielded list is the data of the next frames, in order: proved up to the null-data
+        class (what is left of F14 after /repo 8b27040), the only guard left ---- *)
 Definition C13_yields_next_in_order_full : Prop := forall c rq f r m, is_ack f = true ->
   subscribe_msg rq = Some m ->
   yielded_of (t_events (run_ws c rq (f :: r))) = next_data (spec_prefix r).
 Theorem C13_yields_next_in_order_partial : forall c rq f r m, is_ack f = true ->
-  subscribe_msg rq = Some m -> g_truthy r = true ->
+  subscribe_msg rq = Some m -> g_nonnull r = true ->
   yielded_of (t_events (run_ws c rq (f :: r))) = next_data (spec_prefix r).
 Proof. exact yields_partial. Qed.
 Print Assumptions C13_yields_next_in_order_partial.
 
 (* ---- finishes on complete, whatever follows: outcome Finished, close() once, the complete frame
-        is the last frame consumed, yields = (truthy) data of the next frames before it — full
+        is the last frame consumed, yields = the non-null data of the next frames before it — full
         strength since /repo b1e7ba9 ---- *)
 Theorem C13_complete_finishes : forall c rq f a x b m, is_ack f = true ->
   subscribe_msg rq = Some m -> nonterminal a = true -> skind_of x = SComplete ->
   t_fin (run_ws c rq (f :: a ++ x :: b)) = Finished /\
   closes_of (t_events (run_ws c rq (f :: a ++ x :: b))) = 1 /\
   consumed_of (t_events (run_ws c rq (f :: a ++ x :: b))) = S (S (List.length a)) /\
-  yielded_of (t_events (run_ws c rq (f :: a ++ x :: b))) = filter truthy (next_data a).
+  yielded_of (t_events (run_ws c rq (f :: a ++ x :: b))) = filter nonnull (next_data a).
 Proof. exact complete_finishes. Qed.
 Print Assumptions C13_complete_finishes.
 
@@ -97,13 +97,13 @@ Definition C13_malformed_raises_invalid_full : Prop := forall c rq f a x b m, is
 Theorem C13_error_raises_multi_partial : forall c rq f a x b m l, is_ack f = true ->
   subscribe_msg rq = Some m -> nonterminal a = true -> skind_of x = SError l -> shape_ok x = true ->
   t_fin (run_ws c rq (f :: a ++ x :: b)) = RaisedMulti l (frame_json x) /\
-  yielded_of (t_events (run_ws c rq (f :: a ++ x :: b))) = filter truthy (next_data a).
+  yielded_of (t_events (run_ws c rq (f :: a ++ x :: b))) = filter nonnull (next_data a).
 Proof. exact error_multi. Qed.
 Print Assumptions C13_error_raises_multi_partial.
 Theorem C13_malformed_raises_invalid_partial : forall c rq f a x b m, is_ack f = true ->
   subscribe_msg rq = Some m -> nonterminal a = true -> skind_of x = SMalformed -> shape_ok x = true ->
   t_fin (run_ws c rq (f :: a ++ x :: b)) = RaisedInvalid (Some x) /\
-  yielded_of (t_events (run_ws c rq (f :: a ++ x :: b))) = filter truthy (next_data a).
+  yielded_of (t_events (run_ws c rq (f :: a ++ x :: b))) = filter nonnull (next_data a).
 Proof. exact malformed_invalid. Qed.
 Print Assumptions C13_malformed_raises_invalid_partial.
 
@@ -123,16 +123,23 @@ Definition NEXT (d : json) := fr "next" [("payload", JObj [("data", d)])].
 Definition COMPLETE := fr "complete" [].
 Definition D1 := JObj [("x", JInt 1)].
 
-(* F14: a next frame whose data is {} (or null) is not yielded *)
-Theorem C13_yields_refuted_falsy_data : exists c rq f r m, is_ack f = true /\ subscribe_msg rq = Some m /\
+(* F14, narrowed by /repo 8b27040: a next frame whose data is null is (still) not yielded *)
+Theorem C13_yields_refuted_null_data : exists c rq f r m, is_ack f = true /\ subscribe_msg rq = Some m /\
   yielded_of (t_events (run_ws c rq (f :: r))) <> next_data (spec_prefix r).
-Proof. exists C0, RQ0, ACK, [NEXT (JObj [])]. eexists. vm_compute. repeat split; discriminate. Qed.
+Proof. exists C0, RQ0, ACK, [NEXT JNull]. eexists. vm_compute. repeat split; discriminate. Qed.
 
 Theorem C13_yields_next_in_order_refuted : ~ C13_yields_next_in_order_full.
 Proof.
   intro H. specialize (H C0 RQ0 ACK [NEXT JNull] _ eq_refl eq_refl). vm_compute in H. discriminate.
 Qed.
 Print Assumptions C13_yields_next_in_order_refuted.
+
+(* falsy but non-null data is yielded since 8b27040 (was the F14 witness [ack, next {}]) *)
+Example C13_regression_empty_object_data :
+  yielded_of (t_events (run_ws C0 RQ0 [ACK; NEXT (JObj []); NEXT (JInt 0); NEXT (JStr ""); NEXT D1])) =
+    [JObj []; JInt 0; JStr ""; D1] /\
+  g_nonnull [NEXT (JObj []); NEXT (JInt 0); NEXT (JStr ""); NEXT D1] = true.
+Proof. vm_compute. split; reflexivity. Qed.
 
 (* regression witnesses of the two repaired findings (they were ..._refuted theorems before) *)
 Example C13_regression_after_complete :
@@ -175,7 +182,7 @@ Proof. vm_compute. split; reflexivity. Qed.
 
 Theorem C13_conforms_refuted : ~ C13_conforms_full.
 Proof.
-  intro H. destruct (H C0 RQ0 [ACK; NEXT (JObj [])]) as (_ & E & _). vm_compute in E. discriminate.
+  intro H. destruct (H C0 RQ0 [ACK; NEXT JNull]) as (_ & E & _). vm_compute in E. discriminate.
 Qed.
 Print Assumptions C13_conforms_refuted.
 
